@@ -4,7 +4,7 @@ use syn::{
     parse_quote,
     visit::{visit_path, Visit},
     visit_mut::{visit_type_mut, VisitMut},
-    Fields, GenericParam, Generics, Ident, Type,
+    Fields, GenericParam, Generics, Ident, Type, TypePtr, TypeReference,
 };
 
 macro_rules! bail {
@@ -41,6 +41,19 @@ pub fn expand_self<T: VisitableMut + Clone>(input: &T, to: &Type) -> T {
     struct ExpandSelfVisitor<'a> {
         to: &'a Type,
     }
+    impl ExpandSelfVisitor<'_> {
+        /// `Self` directly after `&` / `*const` / `*mut`: bounds joined by `+` need parentheses there (`&(dyn A + B)`).
+        fn visit_pointee_mut(&mut self, elem: &mut Type) {
+            let tself: Type = parse_quote!(Self);
+            match self.to {
+                Type::TraitObject(t) if *elem == tself && t.bounds.len() > 1 => {
+                    let to = self.to;
+                    *elem = parse_quote!((#to));
+                }
+                _ => self.visit_type_mut(elem),
+            }
+        }
+    }
     impl VisitMut for ExpandSelfVisitor<'_> {
         fn visit_type_mut(&mut self, i: &mut Type) {
             let tself: Type = parse_quote!(Self);
@@ -49,6 +62,12 @@ pub fn expand_self<T: VisitableMut + Clone>(input: &T, to: &Type) -> T {
             } else {
                 visit_type_mut(self, i);
             }
+        }
+        fn visit_type_reference_mut(&mut self, i: &mut TypeReference) {
+            self.visit_pointee_mut(&mut i.elem);
+        }
+        fn visit_type_ptr_mut(&mut self, i: &mut TypePtr) {
+            self.visit_pointee_mut(&mut i.elem);
         }
     }
     let mut input = input.clone();
